@@ -155,6 +155,9 @@ func runC12(p *Prog, r *Report) {
 	if want("C12.5") {
 		ruleDamageReported(p, r, "C12.5")
 	}
+	if want("C12.7") {
+		ruleIOErrorNotCorruption(p, r, "C12.7")
+	}
 	if want("C12.6") {
 		r.Begin("C12.6", "E-GUARD", "a journal ends cleanly only BETWEEN records: Reader.nextChunk latches io.EOF only when called for the first chunk of a record (first == true); running out of data while a record's continuation is expected is reported through corrupt() (singleReader.Read turns io.EOF into 'record complete', so a clean EOF mid-record would hand a prefix of a batch to the replay)", 2)
 		if fn := resolveFn(p, r, "leveldb/journal", "(*Reader).nextChunk"); fn != nil {
